@@ -598,9 +598,10 @@ def run(pid: str, tier: str, seed: int) -> int:
         runs = []
         with cf.ThreadPoolExecutor(max_workers=NPROC) as ex:
             fs = []
-            for r in rots:
-                fs.append(ex.submit(enumerate_cases, f"stage-r{r}", "stage", [r], 1, 1, ALL_MSG_TYPES[:1], outdir))
-                fs.append(ex.submit(enumerate_cases, f"queue-r{r}", "queue", [r], 1, 1, ALL_MSG_TYPES, outdir))
+            for g in range(6):       # the rotations are independent: a few JVMs side by side
+                fs.append(ex.submit(enumerate_cases, f"stage-g{g}", "stage", rots[g::6], 1, 1, ALL_MSG_TYPES[:1], outdir))
+            for g in range(3):
+                fs.append(ex.submit(enumerate_cases, f"queue-g{g}", "queue", rots[g::3], 1, 1, ALL_MSG_TYPES, outdir))
             if th:
                 for k in range(8):
                     fs.append(ex.submit(enumerate_cases, f"stage2-sim{k}", "stage", rots, 2, 1, ALL_MSG_TYPES[:1], outdir, 1500, seed + k))
@@ -627,9 +628,9 @@ def run(pid: str, tier: str, seed: int) -> int:
             rep.machinery_failure("specification tables out of date with the code: " + d)
 
         # ---- 2. replay
-        examples = int(os.environ.get("VERIF_C19_EXAMPLES", "8" if th else "2"))
-        large = 1_000_000 if th else 50_000
-        cap_stage = int(os.environ.get("VERIF_C19_CAP", "1000000" if th else "6000"))
+        examples = int(os.environ.get("VERIF_C19_EXAMPLES", "6" if th else "2"))
+        large = 400_000 if th else 50_000
+        cap_stage = int(os.environ.get("VERIF_C19_CAP", "1000000" if th else "2400"))
         jobs = []
         total_cases = 0
         for r in runs:
@@ -638,8 +639,8 @@ def run(pid: str, tier: str, seed: int) -> int:
             total_cases += r["count"]
             cap = cap_stage if r["mode"] == "stage" else 10**9
             idxs = list(range(r["count"]))
-            if r["count"] * 13 > cap and r["tag"].startswith("stage-r"):
-                idxs = sorted(rnd.sample(idxs, max(1, cap // 13)))
+            if r["tag"].startswith("stage-g") and r["count"] * 6 > cap:
+                idxs = sorted(rnd.sample(idxs, max(1, cap // 6)))
             step = 40 if r["mode"] == "stage" else 120
             for i in range(0, len(idxs), step):
                 jobs.append((r["path"], r["mode"], idxs[i:i + step], examples, seed, len(jobs)))
